@@ -175,6 +175,12 @@ func genInput(t *sim.Tape, allowed []Surface, st *sim.Stats) *Input {
 			}
 		}
 		if t.Bool(1, 8) {
+			// a whole font in a few hundred bytes
+			in.Data, in.Desc, in.Complete = gen.TinyFont(t), "hand-written tiny font", true
+			in.Marks = append(in.Marks, 1, 2, 3, len(in.Data)-1, min(len(in.Data), 512), min(len(in.Data), 511))
+			break
+		}
+		if t.Bool(1, 8) {
 			if file, desc := gen.AltLayoutFont(t, 8); file != nil {
 				in.Data, in.Desc, in.Complete = file, desc, true
 				if i := bytes.Index(file, []byte("/CharStrings get begin")); i >= 0 {
